@@ -202,6 +202,8 @@ def unhandled_segments(sx):
             sx.check(head_b is marked_item, "unh.the-discarded-item-is-the-marked-one")
         else:
             sx.check(popped == 0, "unh.segment-B-leaves-a-claimed-or-new-head", lambda: f"interference={k} popped={popped}")
+        loop.step()
+        sx.check(not t.done(), "unh.consumer-keeps-running", lambda: repr(t))
     loop.cancel_all()
 
 
@@ -329,7 +331,7 @@ def head_age(sx):
         if sx.choice("request_in_flight", 2):
             # a get() waiter holds the connection for the whole run (and takes nothing: its reply never comes)
             loop.run_until_complete(proto.Lock.acquire(), max_time=1.0)
-        loop.create_task(u.consume(proto))
+        task = loop.create_task(u.consume(proto))
         worst = 0.0
         cur = [None, 0.0]          # (datagram at the head, since when)
 
@@ -353,6 +355,7 @@ def head_age(sx):
             if cur[0] is not None:
                 worst = max(worst, loop.time() - cur[1])
             measure()
+        sx.check(not task.done(), "age.unhandled-consumer-keeps-running", lambda: repr(task))
         sx.observe("worst", round(worst, 3))
         sx.check(worst <= 0.3 + 1e-9, "age.head-never-older-than-three-polling-intervals", lambda: str(worst))
     loop.cancel_all()
